@@ -115,6 +115,9 @@ InitObsFam(fam) ==
    flagged |-> {}]
 InitObs == InitObsFam("none")
 
+\* events that accompany a rejection (anything else means the message had an effect by design)
+RejectionEvents == {"msg:ReceivedMessageUnreadable", "msg:ReceivedMessageMalformed", "msg:ReceivedMessageNotInPrivate",
+                    "msg:ReceivedMessageForOtherInstance", "msg:ReceivedMessageUnrecognized", "msg:SetupError"}
 HasEv(e, x) == \E i \in DOMAIN e.evs : e.evs[i] = x
 SecOf(e) == SelectSeq(e.evs, LAMBDA x : x \in {"sec:GoneSecure", "sec:GoneInsecure", "sec:StillSecure"})
 DataOuts(e) == {i \in DOMAIN e.out : e.out[i].t = "D"}
@@ -124,7 +127,7 @@ LiveRecvKeys(x) == {<<y, z>> : z \in ({x.cur, x.prev} \ {0}), y \in ({x.tcur, x.
 
 NextObs(e) ==
   [obs EXCEPT
-     !.delivered[e.p] = IF e.ev = "Recv" /\ e.plain > 0
+     !.delivered[e.p] = IF e.ev = "Recv" /\ e.plain > 0 /\ e.atk = ""
                         THEN Append(@, <<e.plain, HasEv(e, "msg:ReceivedMessageUnencrypted"), e.prs>>) ELSE @,
      !.accepted[e.p] = IF e.ev = "Send" /\ st[e.p].ms = "enc" /\ ~e.err THEN Append(@, e.text) ELSE @,
      !.lastsec[e.p] = IF SecOf(e) # <<>> THEN SecOf(e)[Len(SecOf(e))] ELSE @,
@@ -135,13 +138,17 @@ NextObs(e) ==
      !.disclosed[e.p] = @ \cup UNION {TupSet(e.out[i].discl) : i \in DataOuts(e)},
      !.started = @ \/ e.st.auth \notin {"nil", "none"} \/ e.st.ms = "enc"]
 
+OwnerOfId(id) == IF (id > 100 /\ id < 200) \/ (id >= 100000 /\ id < 200000) THEN "A"
+                 ELSE IF (id > 200 /\ id < 300) \/ (id >= 200000 /\ id < 300000) THEN "B"
+                 ELSE IF (id > 300 /\ id < 400) \/ (id >= 300000 /\ id < 400000) THEN "E" ELSE "?"
+
 \* set of <<property, reason>> violated by event e (pre-state st, post observation o)
 PropViolations(e, o) ==
   LET p == e.p
       q == Other(e.p)
       fifoData == o.fam = "fifo-data"
   IN
-  (IF fifoData /\ e.ev = "Recv" /\ e.m.t = "D" /\ (e.err \/ HasEv(e, "msg:ReceivedMessageUnreadable") \/ HasEv(e, "msg:ReceivedMessageMalformed"))
+  (IF fifoData /\ e.ev = "Recv" /\ e.atk = "" /\ e.m.t = "D" /\ (e.err \/ HasEv(e, "msg:ReceivedMessageUnreadable") \/ HasEv(e, "msg:ReceivedMessageMalformed"))
    THEN {<<"C04", "genuine data message rejected">>} ELSE {})
   \cup (IF fifoData /\ ~IsPrefixSeq(TextsOf(o.delivered[p]), o.accepted[q])
         THEN {<<"C04", "delivery is not a prefix of what the peer sent">>} ELSE {})
@@ -178,11 +185,23 @@ PropViolations(e, o) ==
   \cup (IF e.ev # "Done" /\ e.st.inj > 0
         THEN {<<"C19", "injected messages retained after the call">>} ELSE {})
   \cup (IF e.ev = "Recv" /\ e.atk # "" /\ e.plain = 0 /\ (\A i \in DOMAIN e.out : e.out[i].t = "E")
+           /\ (\A i \in DOMAIN e.evs : e.evs[i] \in RejectionEvents)
            /\ \E f \in (StateFields \ {"frag"}) : SpecField(st[p], f) # Logged(e.st, f)
                   /\ ~(f = "auth" /\ st[p].auth = "nil" /\ e.st.auth = "none" /\ ~e.st.rstep)
         THEN {<<"C06", "a rejected message changed the conversation's state">>} ELSE {})
-  \cup (IF e.ev = "Recv" /\ e.atk # "" /\ e.plain > 0 /\ ~HasEv(e, "msg:ReceivedMessageUnencrypted")
+  \cup (IF e.ev = "Recv" /\ e.atk # "" /\ e.plain # 0 /\ ~HasEv(e, "msg:ReceivedMessageUnencrypted")
+           /\ (st[p].ms # "plain" \/ st[p].pol.req)
         THEN {<<"C02", "a tampered or forged message yielded plaintext">>} ELSE {})
+  \cup (IF e.ev # "Done" /\ e.st.ms = "enc" /\ HasEv(e, "sec:GoneSecure") /\
+             ~(/\ e.st.peer \in {"A", "B", "E"}
+               /\ e.st.sess[1] > 0 /\ e.st.sess[2] > 0
+               /\ {OwnerOfId(e.st.sess[1]), OwnerOfId(e.st.sess[2])} = {p, e.st.peer}
+               /\ e.st.tcur > 0 /\ OwnerOfId(e.st.tcur) = e.st.peer
+               /\ {e.st.prev, e.st.tcur} = {e.st.sess[1], e.st.sess[2]})
+        THEN {<<"C01", "encrypted with a peer key, DH value or session id that does not belong to the party that signed the exchange">>} ELSE {})
+  \cup (IF e.ev # "Done" /\ e.st.ms = "enc" /\ (HasEv(e, "sec:GoneSecure") \/ HasEv(e, "sec:StillSecure")) /\ e.st.peer = p
+           /\ o.fam # "reflect"
+        THEN {<<"C01", "encrypted with itself">>} ELSE {})
   \cup (IF e.ev = "Done" /\ o.fam = "ake" /\ e.qa = 0 /\ e.qb = 0 /\ o.started /\
              ~(/\ st["A"].ms = "enc" /\ st["B"].ms = "enc" /\ st["A"].sess = st["B"].sess
                /\ st["A"].peer = "B" /\ st["B"].peer = "A" /\ st["A"].rev # st["B"].rev)
